@@ -67,6 +67,20 @@ func c09XMLValid(b []byte) bool {
 	}
 }
 
+// encoding/xml is lenient about `<! … >` directives (it even accepts nested angle brackets); a mutated document that only
+// it accepts is not evidence of well-formed input: require that every `<!` starts a comment, CDATA section or DOCTYPE
+func c09XMLNoOddDirective(b []byte) bool {
+	for i := 0; i+1 < len(b); i++ {
+		if b[i] == '<' && b[i+1] == '!' {
+			r := b[i+2:]
+			if !(bytes.HasPrefix(r, []byte("--")) || bytes.HasPrefix(r, []byte("[CDATA[")) || bytes.HasPrefix(r, []byte("DOCTYPE"))) {
+				return false
+			}
+		}
+	}
+	return true
+}
+
 // c09CSSValid: strings and comments terminated, (), [], {} balanced outside strings/comments.
 func c09CSSValid(b []byte) bool {
 	var stack []byte
@@ -302,7 +316,7 @@ func init() {
 					report("output is not valid JSON (encoding/json) although the input is", "")
 				}
 			case "text/xml", "image/svg+xml":
-				if c09XMLValid(d.data) && !c09XMLValid(o) {
+				if c09XMLValid(d.data) && c09XMLNoOddDirective(d.data) && !c09XMLValid(o) {
 					report("output is not well-formed XML (encoding/xml) although the input is", "")
 				}
 			case "text/css":
